@@ -395,13 +395,14 @@ class Parser:
             self.expect("]")
             return ("vec", t)
         if self.peek().s in ("impl", "dyn") and self.peek().k == "id" and self.peek(1).k == "id":
-            # trait object / impl-trait: an opaque type named after the (first) trait
+            # trait object / impl-trait (`&dyn Wallet`, `Arc<dyn Clock>`, `impl Fn..` is still refused below): the opaque
+            # type named after the (first) trait; further bounds (`+ Send`) are skipped
             self.next()
             t0 = self.type_()
             while self.accept("+"):
                 if self.peek().k == "life": self.next()
                 else: self.type_()
-            return ("named", "Dyn" + (t0[1] if t0[0] == "named" else "T"), [])
+            return t0
         if self.peek().s in ("impl", "dyn", "fn", "*"):
             self.err("unsupported type")
         segs = [self.ident()]
